@@ -80,6 +80,20 @@ case("n03-exponent-nan", "a NaN exponent gives NaN for every base (Number::expon
      main_prog([let("e", num(float("nan"))), pr(("EBinary", "BExp", num(1), ident("e")), ("EBinary", "BExp", num(-1), ident("e")), ("EBinary", "BExp", num(2), ident("e")))]))
 case("n04-completion-lost-after-declaration", "found by this check: 7; var w = f(); completes with undefined (spec: 7 — a declaration has an empty completion)",
      script([("SFunDecl", u("f"), 0), ("SExpr", num(7)), ("SDecl", "KVar", [(pid("w"), call(ident("f")))])], funcs=[func(name="f", body=[])]))
+case("n05-int-div-negative-zero", "found by this check: the VM fast path of `/` returns +0 for 0 / negative integer (spec -0); JsValue::div was fixed, div_fast was not",
+     main_prog([let("a", num(0)), let("b", num(-1)), pr(("EBinary", "BDiv", num(1), ("EBinary", "BDiv", ident("a"), ident("b"))))]))
+case("n06-break-through-nested-for-of", "found by this check: a labelled break out of an inner for-of to a label inside an outer for-of also ends the outer loop",
+     script([("SForOf", ("FHDecl", "KLet", pid("z")), ("EArray", [("AElem", num(1)), ("AElem", num(2))]),
+              ("SBlock", [("SLabel", u("L"), ("SBlock", [("SForOf", ("FHDecl", "KConst", pid("j")), ("EArray", [("AElem", num(0)), ("AElem", num(1))]),
+                                                          ("SBlock", [("SIf", ("EBinary", "BSEq", ident("j"), num(1)), ("SBreak", u("L")), None)]))])),
+                          pr(s("after"), ident("z"))]))]))
+case("n07-throw-through-for-in-in-for-of", "found by this check: an exception thrown inside a for-in nested in a for-of does not close the outer iterator (the generator's finally does not run)",
+     script([("SFunDecl", u("g"), 0),
+             ("STry", [("SForOf", ("FHDecl", "KLet", pid("d")), call(ident("g")),
+                        ("SBlock", [("SForIn", ("FHDecl", "KConst", pid("c")), ("EObject", [("PInit", ("PKStr", u("x")), num(1))]),
+                                     ("SBlock", [("SThrow", ("ENew", ident("TypeError"), [("Arg", s("x"))]))]))]))],
+              (pid("e"), [pr(member(ident("e"), "name"))]), None)],
+            funcs=[func(name="g", kind="FGenerator", body=[("STry", [("SYield", None, None, num(1), False)], None, [pr(s("gf"))])])]))
 # agreeing smoke programs
 case("s01-smoke", "let / for / try / finally / throw / print / completion value",
      script([let("x", num(1)),
